@@ -34,4 +34,4 @@ def make_case(tid, prog, cfgs, faults):
     flat = G.flatten(prog)
     return {"tid": tid, "prog": tla_prog(flat), "features": flat["features"], "cfgs": [tla_cfg(c) for c in cfgs],
             "faults": [list(f) for f in faults], "skips": tla_skips(prog.get("skips")),
-            "hookcl": bool(prog.get("hookcl")), "typed": bool(prog.get("typed"))}, flat
+            "hookcl": bool(prog.get("hookcl")), "typed": bool(prog.get("typed")), "kbd": bool(prog.get("kbdhooks"))}, flat
